@@ -58,7 +58,11 @@ NEUTRAL_GROUPS = {"R1": ("C01", "C02", "C05", "C13"), "R2": ("C03", "C04", "C12"
                   "S4": ("C09", "C10", "C15", "C18"), "S5": ("C04", "C07", "C17", "C20"),
                   # fourth set, written against the functions the round-5/6 rules and the later fixes look at
                   "T1": ("C01", "C02", "C05"), "T2": ("C03", "C04", "C06", "C12", "C13", "C14"), "T3": ("C08", "C11", "C16", "C20"),
-                  "T4": ("C09", "C10", "C15", "C18"), "T5": ("C06", "C07", "C13", "C17", "C19")}
+                  "T4": ("C09", "C10", "C15", "C18"), "T5": ("C06", "C07", "C13", "C17", "C19"),
+                  # fifth set, written against the functions the round-7 rules and the latest fixes look at
+                  "U1": ("C01", "C02", "C03", "C05"), "U2": ("C04", "C06", "C09", "C12", "C14", "C17"),
+                  "U3": ("C07", "C08", "C11", "C20"), "U4": ("C09", "C10", "C15", "C16", "C18"),
+                  "U5": ("C02", "C03", "C09", "C13", "C19")}
 
 
 def corpus(prop):
